@@ -46,6 +46,8 @@ Inductive action :=
 | IterBody | StartResponse | StartResponseExc | IterClose | NextChunk
 | FormatExcTb | ClearTb | BareErrorTrap | EmptyIter | ErrorIter
 | BindIr | RecordUri
+| ReadIterResponse      (* `self.iter_response` read by AppResponse.close() while __init__ is still running:
+                           AttributeError when the failure came before the attribute was assigned *)
 | ServerNext            (* the server asks for the next chunk; "raises" StopIteration when it loses interest *)
 | ServerCloseAgain      (* the server calls close() once more; "raises" StopIteration when it does not *)
 | Other.
@@ -54,7 +56,7 @@ Inductive fname :=
 | F_request_run | F_respond | F_do_respond | F_handle_error
 | F_request_close | F_ir_request_close
 | F_get_serving | F_release_serving
-| F_appresponse_init | F_appresponse_close | F_appresponse_run
+| F_appresponse_init | F_appresponse_close | F_appresponse_close_init | F_appresponse_run
 | F_redirector_call
 | F_trap_init | F_trap_next | F_trapped_init | F_trapped_next | F_trapped_close.
 
@@ -145,7 +147,10 @@ Record state := St {
 }.
 
 Definition init_fin : fin := Fin 0 false false false false false None 0 false 0 false false false false false false.
-Definition init_ids : ids := Ids 1 0 0 0 0 0 [].
+(** Request id 0 is the class-default request object that occupies the serving slot while no request is
+    being served; it is modelled in its steady state: already closed (its first close() in a process runs
+    the empty class-level hook map, after which [closed] stays set for the life of the process). *)
+Definition init_ids : ids := Ids 1 0 0 0 0 0 [0].
 Definition init_state : state := St 0 [] [] [] init_ids init_fin.
 
 Definition memZ (x : Z) (l : list Z) : bool := existsb (Z.eqb x) l.
@@ -241,7 +246,9 @@ Definition fin_effect (showtb sz e5 : bool) (a : action) (f : fin) : fin :=
           | Some XHTTPRedirect => 3
           | Some XHTTPError => if e5 then 5 else 4
           | _ => resp_status f
-          end) false
+          end)
+         (* HTTPError.set_response puts format_exc() on the page when show_tracebacks is on; redirect pages carry none *)
+         (match cur_exn f with Some XHTTPError => showtb | _ => false end)
   | ErrorResponse => resp 5 showtb     (* HTTPError(500).set_response: traceback only if show_tracebacks *)
   | FormatExcBody => vars true (v_r_taint f) (v_tb_taint f) (v_b_taint f) (trap_outside f)
   | ClearBody => vars false (v_r_taint f) (v_tb_taint f) (v_b_taint f) (trap_outside f)
@@ -258,7 +265,7 @@ Definition fin_effect (showtb sz e5 : bool) (a : action) (f : fin) : fin :=
   | StartResponseExc =>
     mk (resp_status f) (resp_taint f) (v_body_taint f) (v_r_taint f) (v_tb_taint f) (v_b_taint f)
        5 (v_b_taint f) (sr_plain f) true (trap_outside f)
-  | _ => f
+  | _ => resp (resp_status f) (resp_taint f)     (* ServerNext / ErrorIter: only the bookkeeping bits in [mk] *)
   end.
 
 Definition effect (E : env) (a : action) (st : state) : state :=
@@ -277,6 +284,13 @@ Definition eval_flag (E : env) (st : state) (f : flag) : bool :=
   | FStartedResponse => iterating (sfin st)
   | FResponseHasClose => negb (init_trapped (sfin st))
   | FErrorResponseSet => true       (* request.error_response keeps a callable (by default HTTPError(500).set_response) *)
+  (* decided per internal redirect (indexed by the length of `redirections`): the redirector rewrites the
+     method to GET and empties the body, and `new_uri in redirections` depends on the URIs seen so far *)
+  | FVisitedBefore | FProcessBody | FMethodHead => e_cond E (occ RecordUri (journal st)) f
+  (* response.stream as AppResponse.close() read it before releasing the request (it is set by the request's
+     config namespace, so it depends on how far that request got): decided per close() call, indexed by the
+     number of serving.clear() calls so far - one per completed release_serving *)
+  | FStreaming => e_cond E (occ ClearServing (journal st)) f
   | _ => e_cond E (tick st) f
   end.
 
